@@ -9,6 +9,7 @@
 EXTENDS Semantics, Json
 CONSTANTS KPool,     \* sequence of Kripke values [n, R, L]
           FPool,     \* sequence of [logic |-> "CTL"|"LTL"|"CTLS", f |-> formula]
+          BadPool,   \* sequence of [logic, f]: CTL* objects that are NOT state formulas of the called logic
           MaxRes, Depth
 VARIABLES res,       \* result id -> set of states (may contain the foreign marker -1 after a caller mutation)
           fairmemo,  \* <<k, j, fair>> -> answer adopted for calls with fairness constraints (see FairAnswer)
@@ -34,6 +35,11 @@ Call(k, j, mode, fair) ==
        /\ res' = Put(res, FreeRes, a)
        /\ fairmemo' = IF fair = "none" THEN fairmemo ELSE Put(fairmemo, <<k, j, fair>>, a)
   /\ hist' = Append(hist, [op |-> "call", k |-> k, j |-> j, mode |-> mode, fair |-> fair, r |-> FreeRes])
+\* a call with a formula outside the logic is rejected with TypeError and has no effect whatsoever
+\* (C07 on the error path: the caller's objects are intact after a rejected call, with or without F)
+BadCall(k, b, fair) ==
+  /\ hist' = Append(hist, [op |-> "badcall", k |-> k, b |-> b, fair |-> fair])
+  /\ UNCHANGED <<res, fairmemo>>
 \* the caller does what it likes with a returned set
 Mutate(r, kind) ==
   /\ r \in DOMAIN res
@@ -45,6 +51,7 @@ Mutate(r, kind) ==
 Drop(r) == /\ r \in DOMAIN res /\ res' = [x \in DOMAIN res \ {r} |-> res[x]]
            /\ hist' = Append(hist, [op |-> "drop", r |-> r]) /\ UNCHANGED fairmemo
 Next == \/ \E k \in 1..Len(KPool), j \in 1..Len(FPool), mode \in {"obj", "text"}, fair \in Fairs : Call(k, j, mode, fair)
+        \/ \E k \in 1..Len(KPool), b \in 1..Len(BadPool), fair \in Fairs : BadCall(k, b, fair)
         \/ \E r \in ResIds, kind \in {"clear", "add", "discard"} : Mutate(r, kind)
         \/ \E r \in ResIds : Drop(r)
 Spec == Init /\ [][Next]_vars
